@@ -129,7 +129,18 @@ class G:
     def enc(self):
         d = lambda l: ".".join(map(str, l)) if l else "-"
         base = f"{self.name}/{d(self.t)}/{d(self.c)}/-1,0,1,{self.p8}/{1 if self.cn else 0}/{'-' if self.arg is None else self.arg}"
-        return base + ("/" + objname(self.via) if self.via else "")
+        on = self.lookup_name() if self.via else None
+        if self.cv is not None:
+            return base + f"/{on or '-'}/{self.cv}"
+        return base + ("/" + on if on else "")
+
+    def refusal_expected(self):
+        """the library's matrices are fixed (documented: the gate acts on the targets when all control qubits are 1): an
+        explicit control_value other than the all-ones mask 2^k - 1 of its k >= 1 listed controls has no documented matrix
+        and must be refused; only the generic ControlledGate builds a matrix for a given value"""
+        if self.cv is None or self.via == "ControlledGate" or self.user or self.name == "GLOBALPHASE":
+            return False
+        return self.cn or not self.c or self.cv != 2 ** len(self.c) - 1
 
     def js(self):
         return [self.name, self.t, self.c, self.p8 if self.val is None else self.val, self.user, self.cn, self.arg,
@@ -159,6 +170,8 @@ class G:
 
     def lookup_name(self):
         """the key `_get_gate_unitary` looks up in user_gates"""
+        if self.via == "Gate":
+            return self.name
         return objname(self.via) if self.via else self.name
 
     def as_object(self, rng):
@@ -178,11 +191,17 @@ class G:
             kw = {} if av is None else {"arg_value": av}
             tg = getattr(ops, "H" if self.name == "SNOT" else self.name)
             return ops.ControlledGate(controls=list(self.c), targets=list(self.t), control_value=self.cv, target_gate=tg, **kw)
+        if self.via == "Gate":
+            # the generic class: Gate("TOFFOLI", controls=[a, b], targets=[t], control_value=v)
+            return ops.Gate(self.name, targets=list(self.t), controls=(None if self.cn else list(self.c)), arg_value=av,
+                            control_value=self.cv)
         cls = getattr(ops, self.via)
         if self.user:
             # an instance of the library class whose name the user table shadows: T(targets=[0]), RX(targets=[1], arg_value=a)
             return cls(targets=list(self.t), arg_value=self.arg)
         kw = {} if av is None else {"arg_value": av}
+        if self.cv is not None:
+            kw["control_value"] = self.cv
         if self.c:
             return cls(controls=list(self.c), targets=list(self.t), **kw)
         return cls(targets=list(self.t), **kw)
@@ -280,6 +299,8 @@ def add_to_circuit(qc, g):
     av = g.arg_value()
     if av is not None:
         kw["arg_value"] = av
+    if g.cv is not None:
+        kw["control_value"] = g.cv
     if g.cn:
         qc.add_gate(g.name, targets=(g.t if g.t else None), **kw)
     else:
@@ -311,6 +332,8 @@ def classify_exc(e):
     if isinstance(e, TypeError) and "measurement" in msg:
         return "measurement"
     if isinstance(e, ValueError):
+        if "control_value" in msg:
+            return "controlValue"
         if "takes only" in msg:
             return "userControls"
         if "at most one" in msg:
@@ -549,6 +572,69 @@ def retarget_witnesses():
     return ws
 
 
+def restart_trigger_circuits():
+    """the compact product restarts on the remaining gates once its single block covers all qubits: first a full block
+    (TOFFOLI on all three qubits, or three one-qubit gates merged by a TOFFOLI), then a two-qubit gate given with
+    DESCENDING qubits, then a gate acting inside that block, then more gates on further qubits"""
+    out = []
+    two = [("CNOT", 1), ("CPHASE", 1), ("ISWAP", 0), ("SQRTSWAP", 0), ("CT", 1)]
+    for (a, nca) in two:
+        for qa in ([2, 1], [2, 0], [1, 0]):
+            for b, qb in (("SNOT", [qa[0]]), ("T", [qa[1]]), ("CNOT", [qa[1], qa[0]])):
+                rest = [q for q in range(3) if q not in qa][0]
+                for (c, ncc) in (("SWAP", 0), ("CNOT", 1), ("BERKELEY", 0)):
+                    qc_ = [qa[0], rest] if qa[0] > rest else [rest, qa[0]]
+                    for head in ([G("TOFFOLI", [2], [0, 1])],
+                                 [G("X", [0], []), G("S", [1], []), G("SNOT", [2], []), G("TOFFOLI", [0], [2, 1])]):
+                        mk = lambda n, nc, qs: G(n, qs[nc:], qs[:nc], p8=(2 if n in ROT else 0))
+                        gb = G(b, qb, []) if b != "CNOT" else G("CNOT", [qb[1]], [qb[0]])
+                        out.append((3, head + [mk(a, nca, qa), gb, mk(c, ncc, qc_), G("SNOT", [rest], [])]))
+    return out
+
+
+def qft_circuits():
+    """the library's own QFT circuits (2-6 qubits, with and without the final swaps) as inputs: SNOT / CPHASE(2pi/2^k) /
+    SWAP lists whose compact product restarts in several shapes"""
+    from qutip_qip.algorithms.qft import qft_gate_sequence
+    out = []
+    for N in range(2, 7):
+        for sw in (True, False):
+            qc = qft_gate_sequence(N, swapping=sw)
+            gs = []
+            for g in qc.gates:
+                av = g.arg_value
+                gs.append(G(g.name, list(g.targets or []), list(g.controls or []),
+                            val=(float(av) if av is not None else None)))
+            out.append((N, gs))
+    return out
+
+
+CONTROLLED = ["CNOT", "CSIGN", "CZ", "CY", "CS", "CT", "CRX", "CRY", "CRZ", "CPHASE", "FREDKIN", "TOFFOLI"]
+
+
+def control_value_gates(N=None):
+    """every library gate with >= 1 control x form (by name, every exported class that builds it, the generic
+    Gate(name, ...)) x control_value (None and every value 0 .. 2^k - 1) x two placements"""
+    out = []
+    for name in CONTROLLED:
+        nc, nt = SHAPE[name]
+        k = nc + nt
+        for qs in (list(range(k)), list(range(k))[::-1]):
+            for via in [None] + CLASSES.get(name, []) + ["Gate"]:
+                for cv in [None] + list(range(2 ** nc)):
+                    out.append((k, G(name, qs[nc:], qs[:nc], p8=(2 if name in ROT else 0), via=via, cv=cv)))
+    return out
+
+
+def maybe_control_value(rng, g, p=0.08):
+    """with probability p an explicit control_value: mostly the legal redundant all-ones value, sometimes another one"""
+    if g.user or not g.c or g.cn or g.via == "ControlledGate" or rng.random() >= p:
+        return g
+    k = len(g.c)
+    g.cv = 2 ** k - 1 if rng.random() < 0.7 else rng.randrange(2 ** k)
+    return g
+
+
 def exact_angle(rng):
     """p8 (angle = p8*pi/8, even): inside (-2pi, 2pi), beyond it up to +-6pi, and the boundaries 0, +-pi, +-2pi, +-4pi"""
     r = rng.random()
@@ -584,7 +670,14 @@ def random_exact_gate(rng, N):
             break
     qs = rng.sample(range(N), nc + nt)
     p8 = exact_angle(rng) if name in ROT else 0
-    return maybe_object(rng, G(name, qs[nc:], qs[:nc], p8=p8), 0.4)
+    g = G(name, qs[nc:], qs[:nc], p8=p8)
+    if nc and rng.random() < 0.08:
+        g.via = "Gate"           # the generic class with a library name
+    elif not (name in ("TOFFOLI", "FREDKIN") and rng.random() < 0.5):
+        g = maybe_object(rng, g, 0.4)
+    elif rng.random() < 0.5:
+        g.via = name             # TOFFOLI(controls=[a, b], targets=[t]): the class, with its controls listed
+    return maybe_control_value(rng, g)
 
 
 def random_float_gate(rng, N):
@@ -729,6 +822,7 @@ class C01(PropertyCheck):
         "QipVerif.C01.C01_counterexample_unsorted_order",
         "QipVerif.C01.resolve_user_spec",
         "QipVerif.C01.resolve_library_spec",
+        "QipVerif.C01.control_value_spec",
         "QipVerif.C01.user_circuit_run_eq_den",
         "QipVerif.C01.propagators_measurement_spec",
         "QipVerif.C01.propagators_ignore_product_eq_den",
@@ -759,7 +853,9 @@ class C01(PropertyCheck):
                   "library names; refusals), circuits of user gates run to the product of the user's matrices, and circuits of "
                   "library gates given in the circuit IR run to denG (the shared specification object built from the matrices "
                   "generated from the source, whose documented forms are C09) for every real angle. propagators with "
-                  "ignore_measurement drop exactly the measurements, without it a measurement is refused. Stepping: the state "
+                  "ignore_measurement drop exactly the measurements, without it a measurement is refused. An explicit control_value "
+                  "of a library gate is accepted iff it is the all-ones mask of its listed controls, otherwise refused "
+                  "(control_value_spec; every gate with controls x form x value on the code). Stepping: the state "
                   "recorded after step k is the product of the first k gates applied to the input whatever steps follow "
                   "(trajectory_prefix / trajectory_eq_den); on the code every object returned by sim.state is kept and the "
                   "trajectory is compared after the last step (no-aliasing contract, cf. C16 no_alias). Gate objects have mutable "
@@ -965,6 +1061,10 @@ class C01(PropertyCheck):
                    "mode": table_mode(ugs)}
         nontrivial = len(gates) >= 2 or any(g.qubits() != list(range(len(g.qubits()))) for g in gates)
         impl, qc = self._impl_paths(N, gates, ugs, ket, rho, oper, paths)
+        if "build" in impl and impl["build"][0] == "err controlValue":
+            # the object is refused when it is built (class forms); the model refuses every evaluation
+            impl = {n: impl["build"] for n in names}
+            impl["einsum_lists"] = ("ok", [])
         if "build" in impl:
             res.case(inp, nontrivial, tags + ["build-error"])
             res.disagree(inp, "circuit", impl["build"][0], "circuit construction failed", witness)
@@ -1143,6 +1243,8 @@ class C01(PropertyCheck):
             N = rng.choice([1, 2, 2, 3])
             ugs = random_user_table(rng) if rng.random() < 0.3 else []
             gates = random_gate_list(rng, N, rng.randint(0, 4), ugs)
+            for g in gates:
+                g.cv = None          # the control_value dimension has its own streams
             meas = sorted(rng.randint(0, len(gates)) for _ in range(rng.choice([0, 1, 1, 2, 3])))
             for e in (0, 1):
                 for ig in (0, 1):
@@ -1228,6 +1330,19 @@ class C01(PropertyCheck):
         res.notes.append(f"exhaustive: user gate shadowing a library name ({', '.join(sorted(SHADOW))}) x (oper, fn0, fn1) x (added by "
                          f"name, instance of the library class) x (table before the adds, after them, gates taken from another "
                          f"circuit): {len(sc)} circuits, all paths")
+        # control_value: every library gate with controls x form x value
+        cvg = control_value_gates()
+        self._exact_batch(ctx, res, [(N, [g], [], ["control-value", "cv=" + str(g.cv), "form=" + (g.via or "by-name"),
+                                                   "refusal" if g.refusal_expected() else "accepted"], None) for N, g in cvg])
+        res.notes.append(f"exhaustive: every library gate with controls ({', '.join(CONTROLLED)}) x (by name, exported classes, generic "
+                         f"Gate) x control_value (None, 0 .. 2^k - 1) x 2 placements: {len(cvg)} gates, all paths")
+        # compact product: restart after a full block, then a descending two-qubit gate, a gate inside it, more gates
+        rt = restart_trigger_circuits()
+        self._exact_batch(ctx, res, [(N, gs, [], ["compact-restart"], {"compact", "unitary", "ket", "props0"}) for N, gs in rt])
+        res.notes.append(f"compact product: {len(rt)} circuits 'full block, descending two-qubit gate, gate inside it, further gates' "
+                         "on 3 qubits; QFT circuits of 2-6 qubits with / without swaps (oracle only)")
+        for N, gs in qft_circuits():
+            self._float_case(ctx, res, N, gs, ["qft", f"N={N}"])
         # GLOBALPHASE after a gate / consecutive phases, stepped with the trajectory kept
         pa = phase_after_circuits()
         self._exact_batch(ctx, res, [(N, gs, [], ["phase-after", f"N={N}"], {"ket", "ket_steps", "oper_steps", "dm_steps"})
@@ -1293,11 +1408,14 @@ class C01(PropertyCheck):
         from qutip_qip.circuit import CircuitSimulator
         from qutip_qip.operations import gate_sequence_product
         utab = {u.name: u for u in ugs}
+        refused = [g for g in gates if g.refusal_expected()]
         try:
             if qc is None:
                 qc = build_circuit(N, gates, ugs)
             D = dense_product(N, gates, utab)
         except Exception as e:
+            if refused and classify_exc(e) == "controlValue":
+                return False, "control_value without a documented matrix refused when the gate is built"
             return True, "building the circuit / its dense product raised " + repr(e)
         dim = 2 ** N
         r = np.random.RandomState(rng.randrange(2 ** 31))
@@ -1338,8 +1456,12 @@ class C01(PropertyCheck):
                 sim.step()
                 kept.append(sim.state)
             Ds = dense_prefixes(N, gates, utab)
-            got = np.stack([k.full() for k in kept]) if kept else np.zeros((0,))
-            exp = np.stack([expected(Dk) for Dk in Ds]) if kept else np.zeros((0,))
+            # user matrices need not be unitary: every recorded state is compared relative to ITS OWN expected size
+            # (the final product may be tiny or zero while an intermediate one is huge)
+            exps = [expected(Dk) for Dk in Ds]
+            scale = [max(1.0, float(np.abs(e).max())) for e in exps]
+            got = np.stack([k.full() / sc for k, sc in zip(kept, scale)]) if kept else np.zeros((0,))
+            exp = np.stack([e / sc for e, sc in zip(exps, scale)]) if kept else np.zeros((0,))
             return got, exp
 
         def pre():
@@ -1406,6 +1528,20 @@ class C01(PropertyCheck):
                  lambda: (gate_sequence_product(qc.propagators(expand=True)).full(), D)),
                 ("gate_sequence_product(propagators(expand=False), expand=True)", compact),
             ]
+        if refused:
+            # a fixed-matrix gate with a control_value other than "all controls 1" has no documented matrix: every
+            # evaluation route must refuse it (ValueError naming control_value), none may return a result
+            g0 = refused[0]
+            for name, f in paths:
+                try:
+                    f()
+                except Exception as e:
+                    if classify_exc(e) == "controlValue":
+                        continue
+                    return True, f"{name}: raised {type(e).__name__}: {str(e)[:120]} instead of refusing the control_value"
+                return True, (f"{name}: returned a result for {g0.name} (controls {g0.c}) with control_value={g0.cv} — the "
+                              "fixed-matrix gate has no documented matrix for that value and must be refused")
+            return False, "control_value without a documented matrix refused by every evaluation route"
         for name, f in paths:
             try:
                 got, exp = f()
@@ -1448,6 +1584,8 @@ class C01(PropertyCheck):
         try:
             qc = build_circuit(N, gates, ugs)
         except Exception as e:
+            if any(g.refusal_expected() for g in gates) and classify_exc(e) == "controlValue":
+                return False, "control_value without a documented matrix refused when the gate is built"
             return True, "building the circuit raised " + repr(e)
         cur = [G.from_js(g.js()) for g in gates]
         moved = 0
@@ -1507,6 +1645,11 @@ class C01(PropertyCheck):
                 continue
             manswers = o[3:].split("#")
             st, qc = guarded(lambda: build_circuit(N, gates, ugs))
+            if st == "err controlValue":
+                # refused when the object is built (class forms): the model refuses every evaluation
+                if any(not a.startswith("err controlValue") for a in manswers):
+                    res.disagree(inp, manswers, st, "control_value refused at construction, accepted by the model", witness)
+                continue
             if st != "ok":
                 res.disagree(inp, "circuit", st, "circuit construction failed", witness)
                 continue
@@ -1579,6 +1722,9 @@ class C01(PropertyCheck):
                        if N <= 2]
         systematic += [{"kind": "circuit", "N": N, "gates": [g.js() for g in gs], "ug": [u.js() for u in ugs], "mode": ugs.mode}
                        for N, gs, ugs in shadow_circuits()]
+        systematic += [{"kind": "circuit", "N": N, "gates": [g.js()], "ug": []} for N, g in control_value_gates()]
+        systematic += [{"kind": "circuit", "N": N, "gates": [g.js() for g in gs], "ug": []}
+                       for N, gs in qft_circuits() + restart_trigger_circuits()[::7]]
         systematic += retarget_witnesses()
         systematic += self._controlled_witnesses()
         systematic += angle_sweep()
@@ -1604,6 +1750,15 @@ class C01(PropertyCheck):
         sc = shadow_circuits()
         for N_, gs, ugs in (sc[1], sc[4], sc[5], sc[6 * 9 + 4], sc[6 * 12 + 2]):
             ws.append({"kind": "circuit", "N": N_, "gates": [g.js() for g in gs], "ug": [u.js() for u in ugs], "mode": ugs.mode})
+        # compact product restarting after a full block (QFT on 3 qubits with swaps, the generic trigger)
+        ws.append({"kind": "circuit", "N": 3, "ug": [], "gates": [g.js() for g in qft_circuits()[2][1]]})
+        ws.append({"kind": "circuit", "N": 3, "ug": [], "gates": [g.js() for g in restart_trigger_circuits()[0][1]]})
+        # control_value of two-control fixed-matrix gates: 3 is legal (redundant), 0..2 must be refused; all three forms
+        for via in (None, "TOFFOLI", "Gate"):
+            for cv in (3, 2, 1):
+                ws.append({"kind": "circuit", "N": 3, "ug": [], "gates": [G("TOFFOLI", [2], [0, 1], via=via, cv=cv).js()]})
+        ws.append({"kind": "circuit", "N": 2, "ug": [], "gates": [G("CNOT", [1], [0], via="Gate", cv=0).js()]})
+        ws.append({"kind": "circuit", "N": 3, "ug": [], "gates": [G("FREDKIN", [1, 2], [0], cv=1).js(), G("FREDKIN", [0, 2], [1], via="Gate", cv=1).js()]})
         # re-targeted live gate objects: RZX / SWAP objects placed after construction, RY / CNOT / TOFFOLI moved after a run
         ws.append({"kind": "retarget", "N": 3, "ug": [], "mode": "normal",
                    "gates": [G("SNOT", [0], []).js(), G("RZX", [0, 1], [], val=0.7, via="RZX").js(), G("SWAP", [0, 1], [], via="SWAP").js()],
